@@ -8,7 +8,7 @@ stress / strain pair the law returns satisfies the defining equation "with the R
 strictly increasing in the stress, so it inherits oddness and monotonicity in the load from the root.
 
 (b) `Model/Notch.lean: bisect` is the halving loop of `SeegerBeste._root_in_bracket`
-(tools/fixes/C06-seegerbeste-bracketed-solver.diff) without its stopping rule and without the final linear interpolation
+(repo commit b50f603) without its stopping rule and without the final linear interpolation
 (which is clipped to the last interval and therefore obeys the same bound): the function is evaluated at interior points only,
 never at the bracket ends (where the coded quotient form takes its `np.divide` fall-back values).  `bisect_encloses_root` is
 about any function with the sign structure `f x < 0 ↔ x < r` INSIDE the interval; `seegerBeste_bisection_converges` /
